@@ -276,7 +276,7 @@ func drawRetunes(t *rapid.T, cfg sim.PairCfg) []sessRetune {
 			r.A[1] = cfg.Opts[r.End].RcvWnd * rapid.SampledFrom([]int{1, 2, 8}).Draw(t, "retuneRcvMul")
 		case 1:
 			r.Kind = "nodelay"
-			r.A = [4]int{rapid.IntRange(0, 1).Draw(t, "rtNd"), rapid.SampledFrom([]int{10, 20, 40, 100, 200}).Draw(t, "rtIv"), rapid.SampledFrom([]int{0, 1, 2, 5}).Draw(t, "rtRs"), rapid.IntRange(0, 1).Draw(t, "rtNc")}
+			r.A = [4]int{rapid.IntRange(-1, 2).Draw(t, "rtNd"), rapid.SampledFrom([]int{-1, 5, 10, 20, 40, 100, 200, 1000, 9000}).Draw(t, "rtIv"), rapid.SampledFrom([]int{-1, 0, 1, 2, 5}).Draw(t, "rtRs"), rapid.IntRange(-1, 1).Draw(t, "rtNc")}
 		case 2:
 			r.Kind = "writedelay"
 			r.A[0] = rapid.IntRange(0, 1).Draw(t, "rtWd")
